@@ -220,7 +220,7 @@ def run(ctx):
         os.unlink(os.path.join(sb, "dsdl_small", "cov", n))
     with open(os.path.join(sb, "dsdl_small", "cov", "Prims.1.0.dsdl"), "w") as f:
         f.write("uint8 u8\n@sealed\n")
-    nh = ctx.pick(24, 300)
+    nh = ctx.pick(36, 300)
     jobs = []
     for h in range(nh):
         lang = ["c", "py", "cpp", "html"][h % 4] if not ctx.quick else ["c", "py", "c", "cpp", "py", "html"][h % 6]
